@@ -22,8 +22,10 @@ RULE_TEXT = (
     "per-run (kind, api, mode, abandonment class, close placement, target kind))."
 )
 ASSUMPTIONS = [
-    "runs of one history do not overlap in time (the statement speaks of sequences); a never-closed run stays "
-    "suspended until the history ends",
+    "runs of one history are consumed one after the other (the statement speaks of sequences); a never-closed run "
+    "stays suspended until the history ends; a reader object may be constructed early (before earlier runs) but a "
+    "writer is constructed when its run starts, because a validator that is constructed, then left idle while "
+    "another run uses the same Cid, shares the Cid's check state by design",
     "outcome = returned rows, rejections (class, location, see-also, message), raised exception, close() verdict, "
     "accepted/rejected counters, writer output bytes",
     "the fresh-CID side is the same real code; only the history differs",
@@ -33,7 +35,7 @@ COMPONENTS = {
              "cutplace.rowio readers and writers", "csv", "io.TextIOWrapper/BufferedReader/BufferedWriter"],
     "stub": ["SimFS/SimRaw raw file layer with seeded short reads/writes", "scheduler-driven client"],
 }
-PROBES_REQUIRED = ["writer-after-reader", "reader-after-writer", "abandoned-then-next-run", "never-closed-then-next-run",
+PROBES_REQUIRED = ["reader-created-before-earlier-runs", "writer-after-reader", "reader-after-writer", "abandoned-then-next-run", "never-closed-then-next-run",
                    "prev-ended-in-error", "shared-key-across-runs"]
 
 SEPS = [":", "...", "…"]
@@ -95,7 +97,8 @@ def generate(seed, tier):
                         "mode": rng.choice(["raise", "yield", "continue"]),
                         "stop_after": stop_after,
                         "close": rng.choice(["now", "now", "never"]),
-                        "source": rng.choice(["path", "stream"])})
+                        "source": rng.choice(["path", "stream"]),
+                        "create": rng.choice(["late", "late", "early"])})
         else:
             ops.append({"op": "write", "data": data, "close": rng.random() < 0.7,
                         "target": rng.choice(["path", "stream"])})
@@ -120,16 +123,28 @@ class _World(object):
     def load(self):
         self.cid = lib.load_cid(_cid_rows(self.scenario["cid"]))
 
+    def create_read(self, op):
+        path = op["data"] + ".txt"
+        if op.get("source", "path") == "stream":
+            source = self.fs.text_stream(path, encoding="utf-8", newline="")
+            self.keep.append(source)
+        else:
+            source = path
+        return lib.ReadRun(self.cid, source, op.get("api", "Reader"), op.get("mode", "raise"))
+
+    def create_early(self, ops):
+        """Readers may be constructed long before they are consumed; consumption stays sequential."""
+        self.early = {}
+        for index, op in enumerate(ops):
+            # an early-constructed reader that is then closed without ever being stepped has nothing that
+            # could re-initialise the shared check state after the runs in between: that is an overlapping
+            # use of one Cid, outside "a sequence of reads and writes" (see DESIGN.md, C08)
+            if op["op"] == "read" and op.get("create") == "early" and op.get("stop_after") != 0:
+                self.early[index] = self.create_read(op)
+
     def run_op(self, index, op):
         if op["op"] == "read":
-            path = op["data"] + ".txt"
-            if op.get("source", "path") == "stream":
-                encoding = "utf-8"
-                source = self.fs.text_stream(path, encoding=encoding, newline="")
-                self.keep.append(source)
-            else:
-                source = path
-            run = lib.ReadRun(self.cid, source, op.get("api", "Reader"), op.get("mode", "raise"))
+            run = getattr(self, "early", {}).get(index) or self.create_read(op)
             stop_after = op.get("stop_after")
             steps = 0
             while (stop_after is None or steps < stop_after) and run.step():
@@ -183,6 +198,7 @@ def execute(scenario):
     shared = _World(scenario)
     with simfs.Seams(shared.fs):
         shared.load()
+        shared.create_early(ops)
         shared_outcomes = []
         states = []
         for index, op in enumerate(ops):
@@ -217,6 +233,8 @@ def execute(scenario):
             if previous["op"] == "write" and op["op"] == "read":
                 result.probe("reader-after-writer")
             previous_outcome = shared_outcomes[index - 1]
+            if op.get("create") == "early":
+                result.probe("reader-created-before-earlier-runs")
             if previous_outcome.get("abandoned"):
                 result.probe("abandoned-then-next-run")
             if previous.get("close") in ("never", False):
@@ -232,7 +250,7 @@ def execute(scenario):
     result.nontrivial = len(ops) >= 2 and touched_rows
     spec = scenario["cid"]
     result.schedule_sig = [spec["format"], spec.get("header", 0)] + [
-        [_kind(op), op.get("api"), op.get("mode"),
+        [_kind(op), op.get("api"), op.get("mode"), op.get("create"),
          "all" if op.get("stop_after") is None else ("zero" if op["stop_after"] == 0 else "mid"),
          str(op.get("close")), op.get("source") or op.get("target")] for op in ops]
     result.state_sigs = [list(state) for state in states]
@@ -271,7 +289,7 @@ def candidates(scenario):
     if scenario["cid"]["format"] != "delimited":
         yield lib.with_value(scenario, ["cid", "format"], "delimited")
     for index, op in enumerate(scenario["ops"]):
-        simple = {"api": "Reader", "mode": "raise", "stop_after": None, "close": "now", "source": "path"} \
+        simple = {"api": "Reader", "mode": "raise", "stop_after": None, "close": "now", "source": "path", "create": "late"} \
             if op["op"] == "read" else {"close": True, "target": "path"}
         for key, value in simple.items():
             if op.get(key) != value:
